@@ -353,7 +353,7 @@ Definition step (st : txb) (o : op) : txb * bool :=
   | OpProp p => let (x, ok) := keep (prop_step (t_props st) p) (t_props st) in
                 (mkTxb (t_inputs st) (t_collateral st) (t_mint st) (t_certs st) (t_wdrl st) (t_votes st) x (t_mint_amt st) (t_hash st), ok)
   | OpCalc => (mkTxb (t_inputs st) (t_collateral st) (t_mint st) (t_certs st) (t_wdrl st) (t_votes st) (t_props st) (t_mint_amt st)
-                     (t_hash st || has_script_data st), true)
+                     (has_script_data st), true)      (* since /repo fix C09-noop-calc-keeps-hash: a calc that finds nothing to hash removes the hash an earlier calc stored (every hash here is calc's) *)
   end.
 
 Definition run_from (st : txb) (ops : list op) : txb * list bool :=
@@ -372,13 +372,13 @@ Record built := mkBuilt {
 
 (* build_tx, when has_plutus_inputs(): "script data hash is not specified" and "no collateral inputs are added" are
    errors.  The harness always calls calc_script_data_hash (complete cost models, no datums), which sets the hash
-   exactly when it finds a redeemer or a used language, i.e. when some builder emits a Plutus witness (and keeps a hash
-   stored by an earlier call otherwise: OpCalc); a Plutus
+   exactly when it finds a redeemer or a used language, i.e. when some builder emits a Plutus witness (and removes a hash
+   stored by an earlier call otherwise, since the repair of C09-noop-calc-keeps-hash: OpCalc); a Plutus
    witness that is registered but not emitted (an input re-added as a key input keeps its old witness) therefore makes
    build_tx fail.  Fee and balance are arranged by the harness (add_change_if_needed). *)
 Definition tx_build (st : txb) : result built :=
   if (tx_has_plutus st
-      && (negb (t_hash st || has_script_data st)
+      && (negb (has_script_data st)
           || match ib_inputs (t_collateral st) with [] => true | _ => false end))
      (* MintBuilder::build: an asset whose accumulated quantity is 0 is an error ("MintAssets cannot be created with 0 value") *)
      || existsb (fun e => (snd e =? 0)%Z) (t_mint_amt st)
